@@ -1,6 +1,7 @@
 import Juniper.Proofs.Cond
 import Juniper.Proofs.CondFine
 import Juniper.Proofs.CondCount
+import Juniper.Proofs.CondCancel
 /-!
 # C16 — xsync.ContextCond never loses a wakeup (property theorems)
 
@@ -20,7 +21,7 @@ proof is `Cfg.gen = Cfg.std` by `decide` (`cfg_gen`):
 `signal_wakes_min` is false of the code in two ways (defect family D13, open known findings):
 `signal_wakes_min_false` (two waiters between `Unlock` and the `select`, two Signals) and
 `signal_wakes_min_late_entrant_false` (one such waiter, one Signal, a waiter that enters afterwards takes the
-remembered token); what holds is `signal_wakes_min_no_entrant_no_cancel_partial`.
+remembered token); what holds is `signal_wakes_min_no_entrant_partial` (expiries at any moment included).
 -/
 namespace Juniper.Props.C16
 open Juniper.Model.Cond Juniper.Proofs.Cond Juniper.Proofs.CondFine
@@ -271,7 +272,7 @@ def lateEnd : State :=
 one waiter between `c.L.Unlock()` and the `select`, one `Signal` — the token is remembered in the one-slot
 buffer — then another goroutine calls `Wait`, releases the lock, reaches the `select` first and takes the token;
 the waiter that had entered when the Signal was issued parks: k = 1, m = 1, *of them* nobody is woken. This is
-inside `nUnparked ≤ 1`, `m ≤ 1`; it is excluded from `signal_wakes_min_no_entrant_no_cancel_partial` only by
+inside `nUnparked ≤ 1`, `m ≤ 1`; it is excluded from `signal_wakes_min_no_entrant_partial` only by
 the hypothesis that no `Wait` call releases the lock during the run. (An unattributed count would be satisfied
 by waiter 1: `nWoken lateEnd − nWoken lateStart = 1`.) -/
 theorem signal_wakes_min_late_entrant_false : ¬ SignalWakesMinOneUnparked Cfg.gen ∧ ¬ SignalWakesMin Cfg.gen := by
@@ -286,29 +287,28 @@ theorem signal_wakes_min_late_entrant_false : ¬ SignalWakesMinOneUnparked Cfg.g
 
 example : nWoken lateEnd - nWoken lateStart = 1 ∧ nWokenOfThem lateStart lateEnd = 0 := by decide
 
-/-- **What does hold of `signal_wakes_min`.** Hypotheses, all of them restrictions of the clause:
-* `hprog`: the run consists of `Signal`s and of the progress of waiters that are already inside `Wait` past the
-  lock release (reaching the `select`, re-locking; the lock holder unlocking) — **no `Wait` call releases the
-  lock during the run** (no late entrant: `signal_wakes_min_late_entrant_false`), **no context ends during the
-  run**, no `Broadcast`;
-* `hnc`: no entered waiter's context has ended before the run;
+/-- **What does hold of `signal_wakes_min`.** Hypotheses, both of them restrictions of the clause:
+* `hprog`: the run consists of `Signal`s, of the progress of waiters that are already inside `Wait` past the
+  lock release (reaching the `select`, re-locking; the lock holder unlocking) and of **contexts ending at any
+  moment** (of any waiter, entered or not, also before the run) — but **no `Wait` call releases the lock during
+  the run** (no late entrant: `signal_wakes_min_late_entrant_false`) and no `Broadcast` runs;
 * `hyp`: at most one entered waiter is not yet parked, or there is at most one `Signal`
   (otherwise D13: `signal_wakes_min_false`).
-Conclusion, with the attributed count: of the `k` waiters that had entered, at least `min k m` are woken.
-Not proved (only monitored by the harness, and checked by bounded search of the model by the auditor): the
-same with contexts ending during the run (`min (k − e) m`). -/
-theorem signal_wakes_min_no_entrant_no_cancel_partial (s s' : State) (ls : List Label) (hr : Reach Cfg.gen s)
+Conclusion, attributed, as in `SignalWakesMin`: of the `k` waiters that had entered, `e` have returned their
+context's error and at least `min (k − e) m` are woken — an expiring `Wait` takes no wake-up with it, whatever the
+timing of the expiry relative to the Signals. (Second conjunct: the same with the unattributed counts.) -/
+theorem signal_wakes_min_no_entrant_partial (s s' : State) (ls : List Label) (hr : Reach Cfg.gen s)
     (hrun : run Cfg.gen s ls = some s')
-    (hprog : ∀ l ∈ ls, progressOnly l = true)
-    (hnc : ∀ (i : Nat) (w : Waiter), s.ws[i]? = some w → (isUnparked w || isParked w) = true → w.cancelled = false)
+    (hprog : ∀ l ∈ ls, progressOrCancel l = true)
     (hsettled : nUnparked s' = 0)
     (hyp : nUnparked s ≤ 1 ∨ nSignals ls ≤ 1) :
-    min (nUnparked s + nParked s) (nSignals ls) ≤ nWokenOfThem s s' ∧
-    min (nUnparked s + nParked s) (nSignals ls) ≤ nWoken s' - nWoken s := by
+    min (nUnparked s + nParked s - nErrOfThem s s') (nSignals ls) ≤ nWokenOfThem s s' ∧
+    min (nUnparked s + nParked s - (nErr s' - nErr s)) (nSignals ls) ≤ nWoken s' - nWoken s := by
   rw [cfg_gen] at *
-  have hR := runinv_run (runinv_init (inv_reach hr) hnc) hrun hprog (by simpa using hyp)
-  have h1 := runinv_final (by simpa using hR) hsettled
-  have h2 := quiet_woken_of_them hrun hprog
+  have hi := inv_reach hr
+  have hR := runinvc_run (runinvc_init hi) hrun hprog (by simpa using hyp)
+  have h1 := runinvc_final (by simpa using hR) hsettled
+  obtain ⟨h2, h3⟩ := quietc_of_them hi hrun hprog
   exact ⟨by omega, h1⟩
 
 /-- non-vacuity example: two parked waiters and one on its way -/
@@ -324,10 +324,19 @@ def exEnd : State :=
            { pc := .woken false, cancelled := false }] }
 
 /-- non-vacuity: two parked waiters and one on its way, three Signals, all hypotheses hold -/
-example : ∃ s s' ls, Reach Cfg.gen s ∧ run Cfg.gen s ls = some s' ∧ (∀ l ∈ ls, progressOnly l = true) ∧
+example : ∃ s s' ls, Reach Cfg.gen s ∧ run Cfg.gen s ls = some s' ∧ (∀ l ∈ ls, progressOrCancel l = true) ∧
     nUnparked s = 1 ∧ nParked s = 2 ∧ nSignals ls = 3 ∧ nUnparked s' = 0 ∧ nWokenOfThem s s' = 3 :=
   ⟨exStart, exEnd, [.signal (some 0), .signal (some 1), .signal none, .arrive 2 .recv],
     reach_run (ls := [.start 0, .release 0, .arrive 0 .park, .start 1, .release 1, .arrive 1 .park, .start 2, .release 2]) (.init 3) (by decide),
     by decide, by decide, by decide, by decide, by decide, by decide, by decide⟩
+
+/-- non-vacuity with an expiry between the Signals: two parked waiters and one on its way; the first Signal is
+handed to waiter 0, the context of parked waiter 1 ends (it returns the error), the second Signal is remembered
+for waiter 2, which takes it: k = 3, e = 1, m = 2, two of them woken -/
+example : ∃ s s' ls, Reach Cfg.gen s ∧ run Cfg.gen s ls = some s' ∧ (∀ l ∈ ls, progressOrCancel l = true) ∧
+    nUnparked s = 1 ∧ nParked s = 2 ∧ nSignals ls = 2 ∧ nUnparked s' = 0 ∧ nErrOfThem s s' = 1 ∧ nWokenOfThem s s' = 2 :=
+  ⟨exStart, _, [.signal (some 0), .cancel 1, .signal none, .arrive 2 .recv],
+    reach_run (ls := [.start 0, .release 0, .arrive 0 .park, .start 1, .release 1, .arrive 1 .park, .start 2, .release 2]) (.init 3) (by decide),
+    rfl, by decide, by decide, by decide, by decide, by decide, by decide, by decide⟩
 
 end Juniper.Props.C16
